@@ -482,20 +482,20 @@ Lemma s_round1 m nn nd : s_op (ORound m) [(nn, nd)] =
   RVals (canon_int (s_quot m nn nd)) (canon (nn - s_quot m nn nd * nd) nd).
 Proof. cbn [s_op fst snd]. destruct nd as [|[?|?|]|?]; reflexivity. Qed.
 
-Lemma round_operands m args : m <> Round -> o_args (m_round m args) = args.
+Lemma round_operands m args : o_args (m_round m args) = args.
 Proof.
-  intros Hm. unfold m_round. destruct args as [|n [|d [|? ?]]]; try reflexivity.
-  - destruct (norm_kind n (VFix 1)); destruct m; try congruence; reflexivity.
-  - destruct (norm_kind n d); destruct m; try congruence; reflexivity.
+  unfold m_round. destruct args as [|n [|d [|? ?]]]; try reflexivity.
+  - destruct (norm_kind n (VFix 1)); reflexivity.
+  - destruct (norm_kind n d); reflexivity.
 Qed.
 
 Theorem round_value_exact m args : round_value_domain args = true ->
   exists so, s_out (ORound m) args = Some so /\
     res_same_value (o_res so) (o_res (m_op (ORound m) args)) = true /\
-    (m <> Round -> o_args (m_op (ORound m) args) = args).
+    o_args (m_op (ORound m) args) = args.
 Proof.
   unfold round_value_domain. rewrite andb_true_iff. intros [Hwf Hs].
-  assert (Hops : m <> Round -> o_args (m_op (ORound m) args) = args) by (apply round_operands).
+  assert (Hops : o_args (m_op (ORound m) args) = args) by (apply round_operands).
   destruct args as [|n [|d [|? ?]]]; try discriminate.
   - (* one operand: the divisor is the fixnum 1 *)
     cbn [forallb] in Hwf. apply andb_true_iff in Hwf as [Wn _].
